@@ -321,7 +321,7 @@ func (c *c11Cmp) compare(w c11Want) error {
 				return c.fail("", "%s: body parameters for media types %v, the foreign document offers the body as %v", name, gotMedia, wantMedia)
 			}
 		}
-	got := map[string]c11MRet{}
+		got := map[string]c11MRet{}
 		for _, r := range ep.Rets {
 			code := r.Code
 			if code == "" {
